@@ -50,6 +50,9 @@ type Meta struct {
 	QuickSec  int // wall budget for runs (excluding build)
 	ThoroSec  int
 	WallMaxS  int // per-run watchdog
+	// Space > 0: the property has a finite configuration space of that size which is enumerated:
+	// run i uses seed base*1000003+i and the generator takes configuration (seed % Space).
+	Space int
 }
 
 var Metas = map[string]*Meta{}
